@@ -32,22 +32,27 @@ TxKind == {"noop", "removeP", "addQ"}
 TxLists == IF TxSet = "small" THEN {<<>>, <<"noop">>, <<"removeP">>, <<"noop", "removeP">>}
            ELSE {<<>>, <<"noop">>, <<"removeP">>, <<"noop", "removeP">>, <<"addQ">>, <<"removeP", "addQ">>}
 \* bad: a faulty proposer appended a transaction that cannot execute (a nonce gap): every honest node refuses the block
-Blocks == [prices : BOOLEAN, txs : TxLists, bad : BOOLEAN]
+\* misb: the block carries evidence of misbehaviour of one validator (begin_block then takes it out of the set); everything
+\* else about two blocks -- time, proposer, last commit, transactions -- may be identical
+Blocks == [prices : BOOLEAN, txs : TxLists, bad : BOOLEAN, misb : {FALSE}]
+          \cup [prices : BOOLEAN, txs : {<<>>, <<"noop">>}, bad : {FALSE}, misb : {TRUE}]
 
-PairInit == [ex |-> TRUE, nonce |-> 0, priced |-> FALSE, ntx |-> 0]
-Err == [ex |-> FALSE, nonce |-> 99, priced |-> FALSE, ntx |-> 99]     \* the call returned an error
+PairInit == [ex |-> TRUE, nonce |-> 0, priced |-> FALSE, ntx |-> 0, pun |-> FALSE]
+Err == [ex |-> FALSE, nonce |-> 99, priced |-> FALSE, ntx |-> 99, pun |-> FALSE]     \* the call returned an error
 IsErr(s) == s.nonce = 99
 
 \* apply_prices_from_vote_extensions: put_price_for_currency_pair needs the pair's state
 ApplyPrices(s) == IF IsErr(s) THEN s ELSE IF s.ex THEN [s EXCEPT !.nonce = @ + 1, !.priced = TRUE] ELSE Err
 ApplyTx(s, k) == IF IsErr(s) THEN s
                  ELSE CASE k = "noop" -> [s EXCEPT !.ntx = @ + 1]
-                        [] k = "removeP" -> IF s.ex THEN [ex |-> FALSE, nonce |-> 0, priced |-> FALSE, ntx |-> s.ntx + 1] ELSE Err
+                        [] k = "removeP" -> IF s.ex THEN [ex |-> FALSE, nonce |-> 0, priced |-> FALSE, ntx |-> s.ntx + 1, pun |-> s.pun] ELSE Err
                         [] k = "addQ" -> [s EXCEPT !.ntx = @ + 1]
 RECURSIVE ApplyTxs(_, _)
 ApplyTxs(s, txs) == IF txs = <<>> THEN s ELSE ApplyTxs(ApplyTx(s, Head(txs)), Tail(txs))
 
-Canonical(c, b) == ApplyTxs(IF b.prices THEN ApplyPrices(c) ELSE c, b.txs)
+\* begin_block: evidence is acted upon before anything else of the block
+Punish(s, b) == IF b.misb /\ ~IsErr(s) THEN [s EXCEPT !.pun = TRUE] ELSE s
+Canonical(c, b) == ApplyTxs(IF b.prices THEN ApplyPrices(Punish(c, b)) ELSE Punish(c, b), b.txs)
 \* blocks an honest proposer can build on c and honest validators accept (ProcessProposal does not apply prices)
 Proposable(c, b) == ~b.bad /\ ~IsErr(ApplyTxs(c, b.txs))
 
@@ -58,7 +63,7 @@ VARIABLES committed,  \* committed chain state
 vars == <<committed, work, es, calls, decided, result, hist>>
 View == <<committed, work, es, calls, decided, result>>
 
-NoBlock == [prices |-> FALSE, txs |-> <<"none">>, bad |-> FALSE]
+NoBlock == [prices |-> FALSE, txs |-> <<"none">>, bad |-> FALSE, misb |-> FALSE]
 ES(k, b) == [k |-> k, b |-> b]
 Unset == ES("unset", NoBlock)
 
@@ -69,7 +74,7 @@ Init == /\ committed = PairInit /\ work = PairInit /\ es = Unset /\ calls = 0
 \* (keeping those that execute), no prices; set_prepared_proposal
 Prepare(b) ==
   /\ decided = NoBlock /\ calls < MaxCalls /\ Proposable(committed, b)
-  /\ work' = ApplyTxs(committed, b.txs)
+  /\ work' = ApplyTxs(Punish(committed, b), b.txs)
   /\ es' = ES("prepared", b)
   /\ calls' = calls + 1 /\ hist' = Append(hist, [op |-> "prepare", b |-> b, ok |-> TRUE])
   /\ UNCHANGED <<committed, decided, result>>
@@ -82,7 +87,7 @@ Process(b) ==
   /\ LET skip == es.k \in {"prepared", "preparedValid"} /\ es.b = b IN
      IF skip
        THEN /\ work' = work /\ es' = ES("executed", b)         \* PreparedValid, then set_executed_block
-       ELSE LET w == ApplyTxs(committed, b.txs) IN              \* reset, execute
+       ELSE LET w == ApplyTxs(Punish(committed, b), b.txs) IN              \* reset, execute
             IF IsErr(w) \/ b.bad THEN /\ work' = committed /\ es' = Unset    \* proposal rejected: nothing of it may remain
                         ELSE /\ work' = w /\ es' = ES("executed", b)
   /\ UNCHANGED <<committed, decided, result>>
